@@ -120,6 +120,11 @@ XRUN_HASH = {'suite': 'hash', 'claim': 'contract / solution-set / predicate / pr
 XRUN_EFFECTS = {'suite': 'effects', 'claim': 'analyze(ops) == union of the effect flags of the ops; bytes_contains_any(to_bytes(ops), set) == (some op - never an immediate byte of a Push - has an effect in the set)',
                 'bound': 'every program of <= 2 ops (a third of those with 3; thorough: all) over 64 ops: the 6 effectful ops, Pop, pushes carrying every effect opcode and the Push opcode at each of the 8 immediate positions; '
                          'all 64 effect sets for <= 2 ops, 17 sets for 3; k in {0,1,5,6,7,8,12,40} repetitions of one effectful op followed by another'}
+XRUN_ASM = {'suite': 'asm', 'claim': 'to_bytes(seq) == concatenation of the single-op encodings, from_bytes of it == seq, parsing any byte string fails exactly at an invalid opcode / truncated immediate and '
+                        'otherwise yields ops that serialise to exactly those bytes; the byte iterators give the same bytes when finished by fold / for_each / count / last / collect after k calls of next()',
+            'bound': 'all ordered pairs of the 61 immediate-free ops + 9 boundary pushes; a Push at every byte offset 0..3000 of a stream (thorough 9000); runs of 260 pushes shifted by 0..8 bytes; 3000 random sequences of <= 400 ops '
+                     '(thorough 20000); all byte strings of length <= 2; every truncation of a 500-byte stream and an invalid byte at every third offset (thorough every); 3000 random byte strings of <= 700 bytes; '
+                     'iterators advanced by 0..10 (single ops), 0..31 (6-op sequence), 14 offsets of a 300-op sequence'}
 PROPS = {
     'C05': {'level': 'proof', 'verus_units': ['vm_core'], 'xrun': [XRUN_VMOPS, XRUN_COMPUTE, XRUN_BYTECODE], 'kani': [KANI_VM_OPS_ALL],
             'probes': [{'name': 'probe-breadth', 'input': 'ops [Push(2^40), Compute, ComputeEnd], gas limit 1000, op cost 1',
@@ -151,7 +156,7 @@ PROPS = {
     'C03': {'level': 'other', 'verus_units': ['check_core', 'vm_core'], 'xrun': [XRUN_GRAPH], 'kani': [KANI_NEXT_KEY],
             'technique': 'contract-based deductive verification (Verus) of routing, overlay and deferral closure; next_key, post-state construction and pass sequencing by bounded stand-ins (Kani, xrun small-scope execution against the reference semantics)',
             'explanation': 'state-read routing (vm_core), overlay fallback for contracts without mutations, key successor (bounded), deferral helpers panic-free; two-pass sequencing not covered'},
-    'C13': {'level': 'proof', 'verus_units': ['asm_core'], 'extra': [extras.asm_table], 'kani': [KANI_WORD_BYTES, KANI_ASM_CODEC],
+    'C13': {'level': 'proof', 'verus_units': ['asm_core'], 'extra': [extras.asm_table], 'kani': [KANI_WORD_BYTES, KANI_ASM_CODEC], 'xrun': [XRUN_ASM],
             'explanation': 'the codec the proc-macro generated (macro-expanded text of the working tree) is verified against spec tables generated from asm.yml by an independent YAML reading: '
                            'opcode <-> byte tables, immediates, per-op encode/decode, the byte iterators; sequence-level round trips are Verus lemmas over those tables; pinned-table comparison'},
     'C15': {'level': 'proof', 'verus_units': ['asm_core'], 'kani': [KANI_ASM_EFFECTS, KANI_ASM_BCA], 'xrun': [XRUN_EFFECTS],
